@@ -61,7 +61,7 @@ def regenerate(ctx):
     try:
         winhelp.main(C.SRC, os.path.join(C.COQ, "gen", "WinHelp.v"))
         return True
-    except (Unsupported, SyntaxError, OSError, KeyError, IndexError, AttributeError) as e:
+    except (Unsupported, Exception) as e:  # fail closed on anything the translator trips over
         ctx.fail(
             "translator gen/winhelp.py no longer recognises filters.py/util.py: %s" % e,
             dict(correspondence="gen/winhelp.py -> coq/gen/WinHelp.v", error=str(e)),
@@ -635,14 +635,12 @@ def run(ctx):
             bad.append((fn.__name__ + "_raises", dict(error="%s: %s" % (type(e).__name__, e))))
     ctx.cov["oracle_evaluations"] = sum(v for k, v in ctx.dist.items() if k.startswith("search:"))
     ctx.log("search: %d oracle evaluations on the implementation, %d failures" % (ctx.cov["oracle_evaluations"], len(bad)))
-    seen = set()
+    # at most two reports per kind of violation, smallest inputs first within a kind
+    per_kind = {}
     for name, detail in bad:
-        if name in seen and len(seen) > 0 and sum(1 for n, _ in bad if n == name) > 2:
-            if name + "#2" in seen:
-                continue
-            seen.add(name + "#2")
-        seen.add(name)
-        if len(ctx.failures) < 40:
+        per_kind.setdefault(name, []).append(detail)
+    for name, details in per_kind.items():
+        for detail in details[:2]:
             ctx.fail("property violated on the implementation (%s): %r" % (name, detail), dict(check=name, input=detail), kind="impl")
     if (pr is not None and not pr["ok"]) and not bad and not mism:
         ctx.log("search found no failing input on the implementation")
